@@ -192,6 +192,71 @@ Section Main.
       by destruct (kids_eq_hnd P m p o x Hx Hocc) as [? _].
   Qed.
 
+  (** 7. completeness (for C02): with the count hypothesis as an EQUALITY, a visited object is
+      in [L] as soon as it and everything visited that reaches it through reported edges is
+      [unpinned]: no handle outside the heap, every stored handle is a traced field of a
+      visited, live, unborrowed, non-map object, no cleaner handle. *)
+  Definition unpinned (m : machine) (ext : id → N) (v : id) : Prop :=
+    ext v = 0%N ∧
+    (∀ p x j, get m p = Some x → o_fields x !! j = Some (Some v) →
+       reach P m p ∧ c_traced (class_of P (o_cls x)) !! j = Some true ∧
+       o_ismap x = false ∧ o_borrowed x = false ∧ o_vst x = VLive) ∧
+    (∀ p x, get m p = Some x → o_cleaner x ≠ Some v).
+
+  Theorem pass_complete m ext m' L :
+    PassPre P m ext →
+    (∀ o, alloc m o → rc m o = (N.of_nat (in_fields m o) + ext o)%N) →
+    trace_pass K P m = (m', PDone L) →
+    ∀ v, reach P m v →
+         (∀ u, reach P m u → treach P m u v → unpinned m ext u) →
+         v ∈ L.
+  Proof.
+    intros Hpre Heqc Hr v Hv Hup. destruct (pass_cases m ext Hpre) as [(m1 & Hp & Hpp)|(s1 & s' & H)].
+    { rewrite Hp in Hr. done. }
+    destruct H as (HC & Hpc1 & Hq1 & HR & Hr' & Hq' & Hp). rewrite Hp in Hr.
+    injection Hr as <- <-.
+    pose proof HR as [Hfr Hnb Hpc Hsz Hh Hnd Hrs Hns Hil Hiq Hnp Hb Hcl Hresc].
+    pose proof (V_nodup K P m s1 HC Hpc1 Hq1) as HVnd.
+    assert (HVlt : ∀ p, p ∈ V s1 → (p < length (heap m))%nat).
+    { intros p Hp'. by apply alloc_lt, (V_alloc K P m ext Hpre s1 HC Hpc1 Hq1). }
+    (* every reachable object has been visited *)
+    assert (HreachV : ∀ o, reach P m o → o ∈ V s1).
+    { induction 1 as [o Ho|p c _ IH Hc].
+      - destruct (decide (o ∈ V s1)) as [|Hn]; [done|]. exfalso.
+        rewrite <- (V_tracked s1 Hpc1 Hq1) in Hn.
+        destruct (ci_un _ _ _ _ _ _ HC o Hn) as [_ Hsame].
+        assert (Hal : alloc m o) by (by apply (pp_reach _ _ _ Hpre), reach_pc).
+        assert (Hmk : mk (t_m s1) o = PC) by (rewrite Hsame; by apply (pp_pc_mark _ _ _ Hpre)).
+        apply (ci_pc _ _ _ _ _ _ HC o Hal) in Hmk. rewrite Hpc1 in Hmk. by apply elem_of_nil in Hmk.
+      - by eapply (V_closed K P m s1 HC Hpc1 Hq1). }
+    (* an unpinned visited object has rc = tc after the counting phase *)
+    assert (Hgood : ∀ u, u ∈ V s1 → unpinned m ext u → u ∈ t_non s1).
+    { intros u HuV (Hext & Hflds & Hcln).
+      pose proof (V_alloc K P m ext Hpre s1 HC Hpc1 Hq1 u HuV) as Hal.
+      assert (Hcnt : cnt P m (V s1) u = in_fields m u).
+      { apply cnt_all_in_fields; [done|done| |].
+        - intros p HpV. destruct (alloc_get _ _ (V_alloc K P m ext Hpre s1 HC Hpc1 Hq1 p HpV))
+            as [x Hx]. apply (kids_all_hnd P m p u x Hx); [by eapply Hcln|].
+          intros j Hj. by apply (Hflds p x j Hx Hj).
+        - intros p HpV. unfold hnd. destruct (get m p) as [x|] eqn:Hx; [|done].
+          unfold handles_of. rewrite decide_False by (by eapply Hcln).
+          rewrite occ_opt_zero; [done|]. intros j Hj. apply HpV, HreachV.
+          by apply (Hflds p x j Hx Hj). }
+      pose proof (V_tc K P m s1 HC Hpc1 Hq1 u HuV) as Htc.
+      pose proof (mframe_rc K _ _ u (ci_frame _ _ _ _ _ _ HC)) as Hrc.
+      pose proof (Heqc u Hal) as Hrcu.
+      unfold V, proc in HuV. apply elem_of_app in HuV as [Hroot|?]; [|done]. exfalso.
+      apply (ci_root _ _ _ _ _ _ HC) in Hroot. apply Hroot. lia. }
+    assert (Hv1 : v ∈ t_non s1).
+    { apply Hgood; [by apply HreachV|]. apply Hup; [done|apply treach_refl]. }
+    destruct (decide (v ∈ t_non s')) as [|Hn]; [done|]. exfalso.
+    destruct (Hresc v Hv1 Hn) as (u & Hu & Ht).
+    assert (HuV : u ∈ V s1) by (unfold V, proc; apply elem_of_app; by left).
+    pose proof (V_reach K P m s1 HC Hpc1 Hq1 u HuV) as Hur.
+    pose proof (Hgood u HuV (Hup u Hur Ht)) as Hun.
+    apply (ci_root _ _ _ _ _ _ HC) in Hu. apply (ci_non _ _ _ _ _ _ HC) in Hun. done.
+  Qed.
+
   (** 2. spelled-out consequences of [pass_frame] (Pass.v) *)
   Corollary pass_frame_full m m' r :
     trace_pass K P m = (m', r) →
@@ -234,3 +299,4 @@ Print Assumptions pass_done_marks.
 Print Assumptions pass_closed.
 Print Assumptions pass_no_bad.
 Print Assumptions pass_panicked.
+Print Assumptions pass_complete.
